@@ -469,6 +469,12 @@ def _write_uN_be(ex, callee, argv):
     return Agg([UNIT], 0, "Result::Ok")
 
 
+def _write_u8(ex, callee, argv):
+    v = ex.load(argv[0])
+    v.f.append(argv[1])
+    return Agg([UNIT], 0, "Result::Ok")
+
+
 def _concat_vecs(ex, callee, argv):
     items = ex.load(argv[0]) if isinstance(argv[0], Ref) and argv[0].rng is None else None
     from_list = slice_like(ex, argv[0])
@@ -616,6 +622,7 @@ TABLE = [
     (re.compile(r"^<std::str::Bytes as IntoIterator>::into_iter$"), _into_iter),
     (re.compile(r"^<std::str::Bytes as Iterator>::next$"), _bytes_next),
     (re.compile(r"^<Vec<u8> as WriteBytesExt>::write_u(16|32|64)$"), _write_uN_be),
+    (re.compile(r"^<Vec<u8> as WriteBytesExt>::write_u8$"), _write_u8),
     (re.compile(r"^slice::<impl \[Vec<\w+>\]>::concat$"), _concat_vecs),
     (re.compile(r"^Option::unwrap_or_else$"), _unwrap_or_else),
     (re.compile(r"^<(Result|Option)<.*> as Try>::branch$"), _try_branch),
